@@ -36,6 +36,8 @@ import (
 	"errors"
 	"hash"
 	"math/big"
+	"os"
+	"slices"
 	"strings"
 	"sync"
 	"testing"
@@ -127,6 +129,12 @@ func newConfig() *refstore.Config {
 	cfg.Clients[B] = &refstore.Client{ID: B, Redirects: []string{cbB, "https://rpb.example/cb2"}, AppType: op.ApplicationTypeWeb,
 		Method: oidc.AuthMethodPrivateKeyJWT, RespTypes: a.RespTypes, Grants: a.Grants,
 		Keys: map[string]*jose.JSONWebKey{"bk1": rig.PubJWK(keys.Get("p256c"), "bk1")}}
+	// clients whose ids are near-misses of A's id, each with a key of its own (nearmiss_test.go)
+	for _, id := range nmClientIDs {
+		cfg.Clients[id] = &refstore.Client{ID: id, Redirects: []string{cbA1, cbA2}, AppType: op.ApplicationTypeWeb,
+			Method: oidc.AuthMethodPrivateKeyJWT, RespTypes: a.RespTypes, Grants: a.Grants,
+			Keys: map[string]*jose.JSONWebKey{nmKid: rig.PubJWK(keys.Get(nmKeyFixture), nmKid)}}
+	}
 	// sanity: the storage configuration and the model table must describe the same keys
 	for id, ks := range registry {
 		cl := cfg.Clients[id]
@@ -145,11 +153,18 @@ func newConfig() *refstore.Config {
 	return cfg
 }
 
-func newRig(requestObjects bool) *rig.Rig {
+func newRig(requestObjects bool) *rig.Rig { return newRigIss(requestObjects, I) }
+
+// newRigIss: the provider's issuer is issuer (op.StaticIssuer).
+func newRigIss(requestObjects bool, issuer string) *rig.Rig {
 	oc := rig.DefaultOPConfig()
 	oc.RequestObjectSupported = requestObjects
 	oc.DeviceAuthorization.Lifetime = 6 * time.Hour // the prepared device codes must outlive the largest age
-	return rig.MustNew(rig.Opts{Cfg: newConfig(), OP: oc})
+	o := rig.Opts{Cfg: newConfig(), OP: oc}
+	if issuer != I {
+		o.IssuerFn = op.StaticIssuer(issuer)
+	}
+	return rig.MustNew(o)
 }
 
 // tolerantProvider is an application's provider whose JWT profile verifier carries a custom
@@ -163,8 +178,10 @@ func (p tolerantProvider) JWTProfileVerifier(ctx context.Context) *op.JWTProfile
 }
 
 // newRigPV: pv "default" = newRig; pv "tolerant" = both routers rebuilt over a tolerantProvider.
-func newRigPV(requestObjects bool, pv string) *rig.Rig {
-	r := newRig(requestObjects)
+func newRigPV(requestObjects bool, pv string) *rig.Rig { return newRigIssPV(requestObjects, pv, I) }
+
+func newRigIssPV(requestObjects bool, pv, issuer string) *rig.Rig {
+	r := newRigIss(requestObjects, issuer)
 	if pv == "tolerant" {
 		tp := tolerantProvider{r.Provider}
 		r.H[0] = op.CreateRouter(tp)
@@ -200,6 +217,7 @@ var signers = map[string]signerT{
 	"A.k4/ES256":      {key: "ec_sec1", alg: "ES256"},
 	"A.p384/ES384":    {key: "p384a", alg: "ES384"},
 	"svc.k/PS256":     {key: "rsa3", alg: "PS256"},
+	"N.k/RS256":       {key: nmKeyFixture, alg: "RS256"}, // the key of every near-miss-named client
 }
 
 func b64(b []byte) string { return base64.RawURLEncoding.EncodeToString(b) }
@@ -428,25 +446,63 @@ func relSeconds(s string) (int64, bool) {
 }
 
 func audValue(name, vIssuer string) (any, bool, bool) { // value, present, contains vIssuer
+	v, present := audRaw(name, vIssuer)
+	if !present {
+		return nil, false, false
+	}
+	// "contains the provider's issuer": some member IS the issuer string, character by character
+	has := false
+	switch x := v.(type) {
+	case string:
+		has = x == vIssuer
+	case []string:
+		has = slices.Contains(x, vIssuer)
+	}
+	return v, true, has
+}
+
+func audRaw(name, vIssuer string) (any, bool) {
+	const x = "https://x.example"
 	switch name {
 	case "[I]":
-		return []string{I}, true, vIssuer == I
+		return []string{I}, true
 	case "[x]":
-		return []string{"https://x.example"}, true, false
+		return []string{x}, true
 	case "[x,I]":
-		return []string{"https://x.example", I}, true, vIssuer == I
+		return []string{x, I}, true
 	case "I-string":
-		return I, true, vIssuer == I
+		return I, true
 	case "[]":
-		return []string{}, true, false
+		return []string{}, true
 	case "absent":
-		return nil, false, false
+		return nil, false
 	case "[tokenURL]":
-		return []string{tokenURL}, true, false
+		return []string{tokenURL}, true
 	case "[I2]":
-		return []string{I2}, true, vIssuer == I2
+		return []string{I2}, true
 	case "[I/]":
-		return []string{I + "/"}, true, false
+		return []string{I + "/"}, true
+	case "[V]": // the issuer of the verifier / provider the assertion is presented to
+		return []string{vIssuer}, true
+	}
+	// "nm|<form>|<kind>": the near-miss <kind> of the verifier's issuer (nearmiss_test.go) in one of
+	// the JSON shapes an audience can take
+	if p := strings.Split(name, "|"); len(p) == 3 && p[0] == "nm" {
+		v := nearMiss(vIssuer, p[2])
+		switch p[1] {
+		case "str":
+			return v, true
+		case "arr":
+			return []string{v}, true
+		case "2nd":
+			return []string{x, v}, true
+		case "1st":
+			return []string{v, x}, true
+		case "+V": // the near-miss next to the genuine issuer: the audience DOES contain the issuer
+			return []string{v, vIssuer}, true
+		case "V+":
+			return []string{vIssuer, v}, true
+		}
 	}
 	panic("c14: aud " + name)
 }
@@ -650,8 +706,14 @@ func TestCheck(t *testing.T) {
 		name string
 		run  func(*testing.T, *engine.Check)
 	}{ // cheapest first: should the deadline strike on a crowded machine, the small parts are complete
+		{"nearmiss-verify", runNearMissVerify}, {"nearmiss-reqobj", runNearMissReqObj}, {"nearmiss-endpoint", runNearMissEndpoint},
 		{"interop", runInterop}, {"history-reqobj", runHistoryReqObj}, {"reqobj-rt", runReqObjRT}, {"history-verify", runHistoryVerify}, {"history-endpoint", runHistoryEndpoint},
 		{"reqobj", runReqObj}, {"endpoint", runEndpoint}, {"verify", runVerify}} {
+		// development aid: C14_PARTS=a,b runs only those parts (and marks the run as capped)
+		if only := os.Getenv("C14_PARTS"); only != "" && !slices.Contains(strings.Split(only, ","), p.name) {
+			c.Cap("part " + p.name + " not run (C14_PARTS)")
+			continue
+		}
 		t0 := time.Now()
 		p.run(t, c)
 		walls[p.name] = time.Since(t0).Seconds()
